@@ -218,5 +218,37 @@ func (s *Session) Topics() ([]string, []byte, error) {
 
 // ID returns the session ID.
 func (s *Session) ID() string {
+	s.mu.Lock()
+	defer s.mu.Unlock()
+
 	return string(s.Cmsg.ClientID())
+}
+
+// WillMessage returns the will message to publish when the connection is
+// closed unexpectedly, or nil if there is none (or it has been discarded).
+func (s *Session) WillMessage() *message.PublishMessage {
+	s.mu.Lock()
+	defer s.mu.Unlock()
+
+	if !s.Cmsg.WillFlag() {
+		return nil
+	}
+
+	return s.Will
+}
+
+// DiscardWill discards the will message (the client disconnected gracefully).
+func (s *Session) DiscardWill() {
+	s.mu.Lock()
+	defer s.mu.Unlock()
+
+	s.Cmsg.SetWillFlag(false)
+}
+
+// CleanSession returns true if the session ends with the network connection.
+func (s *Session) CleanSession() bool {
+	s.mu.Lock()
+	defer s.mu.Unlock()
+
+	return s.Cmsg.CleanSession()
 }
